@@ -1,6 +1,7 @@
 From GV Require Import Base.Grammar Base.Analyses LR.Automaton LR.Validator LR.Spec LR.Sound LR.Complete.
 
 From GV Require Import Common.Outcome LR.CloseMirror LR.CloseSpec LR.CloseProofs.
+From GV Require LR.TermSpec Properties.LRterm.
 Theorem C01_lr_sound : lr_sound_stmt.
 Proof. exact lr_sound. Qed.
 Print Assumptions C01_lr_sound.
@@ -70,3 +71,10 @@ Print Assumptions C01_lr1_textbook_agrees.
 Theorem C01_close_mirror_sound_textbook_refuted : close_mirror_sound_textbook_refuted_stmt.
 Proof. exact close_mirror_sound_textbook_refuted. Qed.
 Print Assumptions C01_close_mirror_sound_textbook_refuted.
+
+(* the parse loop always returns on a validated conflict-free table of a productive grammar in which no rule derives
+   just itself, within the explicit fuel lr_fuel g input *)
+Theorem C01_lr_terminates_validated : GV.LR.TermSpec.lr_terminates_validated_stmt.
+Proof. exact GV.Properties.LRterm.LRterm_lr_terminates_validated. Qed.
+Print Assumptions C01_lr_terminates_validated.
+
